@@ -2,7 +2,7 @@ import MjProof.Model.CType
 import Drivers.Common
 /-
 Line protocol (one op per line; strings are sent as `.`-separated hexadecimal code points, `-` = empty):
-  parse <hex>          -> `ok <ast> | <hex of decl(ast)>`   or `reject`      (parse_type, then str())
+  parse <hex>          -> `ok <ast> | <hex of decl(ast)> | <ast of parse_type(decl(ast))>`   or `reject`
   ret <hex>            -> same for parse_function_return_type
   decl <ast> [<hex>]   -> `ok <hex of t.decl(name)> | <ast of parse_type(t.decl())>|reject`
   wf <ast>             -> `wf 1` iff the model's WF predicate (or the special type) holds
@@ -69,7 +69,8 @@ def readAstAll (s : String) : Option CType :=
 
 def showRes (r : Option CType) : String :=
   match r with
-  | some t => "ok " ++ ofStr (show_ t) ++ " | " ++ encodeHex (decl t)
+  | some t => "ok " ++ ofStr (show_ t) ++ " | " ++ encodeHex (decl t) ++ " | " ++
+      (match parseType (decl t) with | some u => ofStr (show_ u) | none => "reject")
   | none => "reject"
 
 def showParse (r : Option CType) : String :=
